@@ -19,6 +19,7 @@ from typing import Any
 import falcon
 
 from .._common import (
+    _ARROW_CONTENT_TYPE,
     _ERROR_PAGE_STYLE,
     _FONT_IMPORTS,
     _VGI_LOGO_HTML,
@@ -154,8 +155,10 @@ def _wants_html(req: falcon.Request) -> bool:
 def _make_error_serializer(proxy_hint: str = "") -> Callable[[falcon.Request, falcon.Response, falcon.HTTPError], None]:
     """Build the Falcon error serializer for one app.
 
-    Only ``HTTPUnauthorized`` (401) is given the standardized treatment; every
-    other error falls back to Falcon's default JSON serialization.
+    ``HTTPUnauthorized`` (401) is given the standardized treatment, 400 and 413
+    are rendered as Arrow IPC error streams like the RPC resources' own
+    rejections, and every other error falls back to Falcon's default JSON
+    serialization.
 
     Args:
         proxy_hint: The app's static proxy-configuration note, or ``""`` when
@@ -172,6 +175,17 @@ def _make_error_serializer(proxy_hint: str = "") -> Callable[[falcon.Request, fa
 
     def _serialize(req: falcon.Request, resp: falcon.Response, exc: falcon.HTTPError) -> None:
         """Serialize one Falcon error onto the response."""
+        if isinstance(exc, (falcon.HTTPBadRequest, falcon.HTTPContentTooLarge)):
+            # docs/WIRE_PROTOCOL.md section 13: a 400 / 413 body is still an
+            # Arrow IPC stream holding an error batch, also when the request
+            # was refused by middleware (size cap, undecodable content coding)
+            # before it reached an RPC resource.
+            from ._responses import _error_response_stream
+
+            text = f"{exc.title}: {exc.description}" if exc.description else str(exc.title)
+            resp.content_type = _ARROW_CONTENT_TYPE
+            resp.data = _error_response_stream(RuntimeError(text)).getvalue()
+            return
         if not isinstance(exc, falcon.HTTPUnauthorized):
             resp.content_type = falcon.MEDIA_JSON
             resp.data = exc.to_json()
